@@ -1,2 +1,1260 @@
-// stub created by the lead so that the workspace always loads; replace it with the check
-fn main() {}
+//! C11 — every accepted request gets exactly one matching response from the right zone.
+//!
+//! Seam: `Server::verif_handle_raw_request` (the private `ServerContext::handle_request` front
+//! door: header gate, response gate, opcode gate, question parsing, access lists, full parse,
+//! dispatch to a real `Catalog` of real `InMemoryZoneHandler`s). Raw request bytes go in, the raw
+//! datagrams/frames that arrive on the `BufDnsStreamHandle` receiver are counted and decoded by an
+//! independent wire walker (and cross-checked with hickory's decoder).
+//!
+//! E-ENUM over six declared families (see `main`): dispatch product, class/type/EDNS product,
+//! header product, complete prefix + single-byte-substitution neighbourhoods of representative
+//! requests, all short strings over the structural alphabet (whole messages and bodies behind
+//! fixed headers). Every request is followed by a fixed probe query on the SAME server object.
+//!
+//! Oracle: `frontdoor::expect` (reference front door written from the statement).
+
+mod frontdoor;
+
+use std::net::SocketAddr;
+use std::str::FromStr;
+use std::sync::Arc;
+
+use frontdoor as fd;
+use futures_util::StreamExt;
+use hickory_net::runtime::TokioRuntimeProvider;
+use hickory_net::xfer::Protocol;
+use hickory_net::BufDnsStreamHandle;
+use hickory_proto::op::{Message, SerialMessage};
+use hickory_proto::rr::rdata::{NS, SOA, TXT};
+use hickory_proto::rr::{LowerName, Name, RData, Record, RecordType};
+use hickory_server::dnssec::NxProofKind;
+use hickory_server::server::RequestInfo;
+use hickory_server::store::in_memory::InMemoryZoneHandler;
+use hickory_server::zone_handler::{
+    AuthLookup, AxfrPolicy, Catalog, LookupControlFlow, LookupOptions, Nsec3QueryInfo, ZoneHandler, ZoneType,
+};
+use hickory_server::Server;
+use serde_json::{json, Value};
+use vcore::{catch, fnv64, hex, Ctx, Local, Odometer};
+
+// ------------------------------------------------------------------------------------------
+// independent wire builder
+
+fn name_wire(s: &str) -> Vec<u8> {
+    let mut out = vec![];
+    for l in s.split('.') {
+        if l.is_empty() {
+            continue;
+        }
+        out.push(l.len() as u8);
+        out.extend_from_slice(l.as_bytes());
+    }
+    out.push(0);
+    out
+}
+
+/// A name of exactly `total` wire octets ending in `suffix` (a wire name), filled with labels of
+/// up to 63 `fill` octets.
+fn long_name(total: usize, suffix: &[u8], fill: u8) -> Vec<u8> {
+    let mut rest = total - suffix.len();
+    let mut out = vec![];
+    while rest > 0 {
+        let chunk = rest.min(64);
+        // a chunk of n octets = 1 length octet + n-1 label octets; avoid a 1-octet leftover
+        let chunk = if rest - chunk == 1 { chunk - 1 } else { chunk };
+        out.push((chunk - 1) as u8);
+        out.extend(std::iter::repeat(fill).take(chunk - 1));
+        rest -= chunk;
+    }
+    out.extend_from_slice(suffix);
+    out
+}
+
+fn hdr(id: u16, flags: u16, c: [u16; 4]) -> Vec<u8> {
+    let mut v = Vec::with_capacity(64);
+    v.extend_from_slice(&id.to_be_bytes());
+    v.extend_from_slice(&flags.to_be_bytes());
+    for x in c {
+        v.extend_from_slice(&x.to_be_bytes());
+    }
+    v
+}
+
+fn question(qname: &[u8], qtype: u16, qclass: u16) -> Vec<u8> {
+    let mut v = qname.to_vec();
+    v.extend_from_slice(&qtype.to_be_bytes());
+    v.extend_from_slice(&qclass.to_be_bytes());
+    v
+}
+
+fn rr(owner: &[u8], t: u16, c: u16, ttl: u32, rdata: &[u8]) -> Vec<u8> {
+    let mut v = owner.to_vec();
+    v.extend_from_slice(&t.to_be_bytes());
+    v.extend_from_slice(&c.to_be_bytes());
+    v.extend_from_slice(&ttl.to_be_bytes());
+    v.extend_from_slice(&(rdata.len() as u16).to_be_bytes());
+    v.extend_from_slice(rdata);
+    v
+}
+
+fn opt_rr(payload: u16, ext: u8, ver: u8, dnssec_ok: bool, rdata: &[u8]) -> Vec<u8> {
+    let ttl = ((ext as u32) << 24) | ((ver as u32) << 16) | if dnssec_ok { 0x8000 } else { 0 };
+    rr(&[0], 41, payload, ttl, rdata)
+}
+
+/// Records (answer, authority, additional) contributed by an EDNS variant.
+#[derive(Default, Clone)]
+struct Extra {
+    an: Vec<u8>,
+    an_n: u16,
+    ns: Vec<u8>,
+    ns_n: u16,
+    ar: Vec<u8>,
+    ar_n: u16,
+}
+
+const EDNS_NAMES: [&str; 16] = [
+    "none", "v0", "v1", "v255", "v0-payload0", "v0-payload512", "v0-payload65535", "v0-do", "v0-unknown-option",
+    "v0-nsid", "two-opts-v0-v0", "two-opts-v0-v1", "opt-in-answer", "opt-v1-in-authority", "opt-owner-not-root",
+    "v0-option-overruns",
+];
+
+fn edns_variant(i: usize) -> Extra {
+    let mut e = Extra::default();
+    let ar = |b: Vec<u8>, e: &mut Extra| {
+        e.ar.extend(b);
+        e.ar_n += 1;
+    };
+    match i {
+        0 => {}
+        1 => ar(opt_rr(1232, 0, 0, false, &[]), &mut e),
+        2 => ar(opt_rr(1232, 0, 1, false, &[]), &mut e),
+        3 => ar(opt_rr(1232, 0, 255, false, &[]), &mut e),
+        4 => ar(opt_rr(0, 0, 0, false, &[]), &mut e),
+        5 => ar(opt_rr(512, 0, 0, false, &[]), &mut e),
+        6 => ar(opt_rr(65535, 0, 0, false, &[]), &mut e),
+        7 => ar(opt_rr(1232, 0, 0, true, &[]), &mut e),
+        8 => ar(opt_rr(1232, 0, 0, false, &[0xff, 0x01, 0, 2, 0xab, 0xcd]), &mut e),
+        9 => ar(opt_rr(1232, 0, 0, false, &[0, 3, 0, 0]), &mut e),
+        10 => {
+            ar(opt_rr(1232, 0, 0, false, &[]), &mut e);
+            ar(opt_rr(1232, 0, 0, false, &[]), &mut e);
+        }
+        11 => {
+            ar(opt_rr(1232, 0, 0, false, &[]), &mut e);
+            ar(opt_rr(1232, 0, 1, false, &[]), &mut e);
+        }
+        12 => {
+            e.an = opt_rr(1232, 0, 0, false, &[]);
+            e.an_n = 1;
+        }
+        13 => {
+            e.ns = opt_rr(1232, 0, 1, false, &[]);
+            e.ns_n = 1;
+        }
+        14 => ar(rr(&name_wire("o."), 41, 1232, 0, &[]), &mut e),
+        15 => ar(opt_rr(1232, 0, 0, false, &[0, 10, 0, 9, 1, 2]), &mut e),
+        _ => unreachable!(),
+    }
+    e
+}
+
+fn build_request(id: u16, flags: u16, qname: &[u8], qtype: u16, qclass: u16, edns: usize) -> Vec<u8> {
+    let e = edns_variant(edns);
+    let mut v = hdr(id, flags, [1, e.an_n, e.ns_n, e.ar_n]);
+    v.extend(question(qname, qtype, qclass));
+    v.extend(e.an);
+    v.extend(e.ns);
+    v.extend(e.ar);
+    v
+}
+
+// ------------------------------------------------------------------------------------------
+// the world: query names, catalog shapes, access lists
+
+struct QName {
+    what: &'static str,
+    wire: Vec<u8>,
+}
+
+/// Owners that carry a TXT marker in every zone enclosing them (text form, lower case) — plus the
+/// two 255-octet names.
+const MARKER_OWNERS: [&str; 13] =
+    [".", "z.", "x.z.", "a.z.", "x.a.z.", "a.a.z.", "x.a.a.z.", "b.z.", "x.b.z.", "o.", "x.o.", "az.", "z.a."];
+
+fn qnames() -> Vec<QName> {
+    let mut v = vec![];
+    for s in MARKER_OWNERS {
+        v.push(QName { what: s, wire: name_wire(s) });
+    }
+    v.push(QName { what: "Z. (upper case)", wire: name_wire("Z.") });
+    v.push(QName { what: "X.a.Z. (mixed case)", wire: name_wire("X.a.Z.") });
+    v.push(QName { what: "255 octets under a.z.", wire: long_name(255, &name_wire("a.z."), b'l') });
+    v.push(QName { what: "255 octets under o.", wire: long_name(255, &name_wire("o."), b'l') });
+    v.push(QName { what: "256 octets under a.z. (too long)", wire: long_name(256, &name_wire("a.z."), b'l') });
+    v.push(QName { what: "pointer c002 (into the flags)", wire: vec![0xc0, 0x02] });
+    v.push(QName { what: "pointer c004 (into QDCOUNT)", wire: vec![0xc0, 0x04] });
+    v.push(QName { what: "pointer c005 (into QDCOUNT low)", wire: vec![0xc0, 0x05] });
+    v.push(QName { what: "z + pointer c004", wire: vec![1, b'z', 0xc0, 0x04] });
+    v.push(QName { what: "x.a.z + pointer c006", wire: vec![1, b'x', 1, b'a', 1, b'z', 0xc0, 0x06] });
+    v.push(QName { what: "label with a zero octet under z.", wire: vec![1, 0, 1, b'z', 0] });
+    v.push(QName { what: "pointer c00c (to itself)", wire: vec![0xc0, 0x0c] });
+    v
+}
+
+fn hname(wire: &[u8]) -> Name {
+    // wire (uncompressed) -> hickory Name, used only to populate zones
+    let mut labels: Vec<&[u8]> = vec![];
+    let mut p = 0;
+    while wire[p] != 0 {
+        let n = wire[p] as usize;
+        labels.push(&wire[p + 1..p + 1 + n]);
+        p += 1 + n;
+    }
+    let mut n = Name::from_labels(labels).unwrap();
+    n.set_fqdn(true);
+    n
+}
+
+struct Shape {
+    what: &'static str,
+    zones: &'static [&'static str],
+    /// put a handler that skips every request in front of the first zone's handler
+    chained: bool,
+}
+
+const SHAPES: [Shape; 10] = [
+    Shape { what: "{z.}", zones: &["z."], chained: false },
+    Shape { what: "{z., a.z.}", zones: &["z.", "a.z."], chained: false },
+    Shape { what: "{z., a.z., a.a.z.}", zones: &["z.", "a.z.", "a.a.z."], chained: false },
+    Shape { what: "{a.z., b.z.}", zones: &["a.z.", "b.z."], chained: false },
+    Shape { what: "{.}", zones: &["."], chained: false },
+    Shape { what: "{., z.}", zones: &[".", "z."], chained: false },
+    Shape { what: "{}", zones: &[], chained: false },
+    Shape { what: "{z. = [skip-all, in-memory]}", zones: &["z."], chained: true },
+    Shape { what: "{., a.z.}", zones: &[".", "a.z."], chained: false },
+    Shape { what: "{z., a.a.z.}", zones: &["z.", "a.a.z."], chained: false },
+];
+
+struct Acl {
+    what: &'static str,
+    deny: &'static [&'static str],
+    allow: &'static [&'static str],
+    src: &'static str,
+}
+
+const V4: &str = "192.0.2.1:5353";
+const V4MAPPED: &str = "[::ffff:192.0.2.1]:5353";
+const V6: &str = "[2001:db8::1]:5353";
+
+const ACLS: [Acl; 14] = [
+    Acl { what: "no lists", deny: &[], allow: &[], src: V4 },
+    Acl { what: "deny /24 containing src", deny: &["192.0.2.0/24"], allow: &[], src: V4 },
+    Acl { what: "deny /32 = src", deny: &["192.0.2.1/32"], allow: &[], src: V4 },
+    Acl { what: "deny list without src", deny: &["10.0.0.0/8"], allow: &[], src: V4 },
+    Acl { what: "deny /8 + allow /32 = src", deny: &["192.0.0.0/8"], allow: &["192.0.2.1/32"], src: V4 },
+    Acl { what: "deny /8 + allow /32 other", deny: &["192.0.0.0/8"], allow: &["192.0.2.2/32"], src: V4 },
+    Acl { what: "allow list without src", deny: &[], allow: &["198.51.100.0/24"], src: V4 },
+    Acl { what: "allow list with src", deny: &[], allow: &["192.0.2.0/24"], src: V4 },
+    Acl { what: "v4-mapped src, deny v4 /24", deny: &["192.0.2.0/24"], allow: &[], src: V4MAPPED },
+    Acl { what: "v4-mapped src, deny /8 + allow /32", deny: &["192.0.0.0/8"], allow: &["192.0.2.1/32"], src: V4MAPPED },
+    Acl { what: "v6 src, deny v6 /32", deny: &["2001:db8::/32"], allow: &[], src: V6 },
+    Acl { what: "v6 src, deny v4 only", deny: &["10.0.0.0/8"], allow: &[], src: V6 },
+    Acl { what: "deny /32 and allow /32 both = src", deny: &["192.0.2.1/32"], allow: &["192.0.2.1/32"], src: V4 },
+    Acl { what: "deny /24 + allow /16 (less specific)", deny: &["192.0.2.0/24"], allow: &["192.0.0.0/16"], src: V4 },
+];
+
+// ------------------------------------------------------------------------------------------
+// real server objects
+
+/// A zone handler that declines every request (chained-handler configurations).
+struct SkipAll {
+    origin: LowerName,
+}
+
+#[async_trait::async_trait]
+impl ZoneHandler for SkipAll {
+    fn zone_type(&self) -> ZoneType {
+        ZoneType::Primary
+    }
+    fn axfr_policy(&self) -> AxfrPolicy {
+        AxfrPolicy::Deny
+    }
+    fn origin(&self) -> &LowerName {
+        &self.origin
+    }
+    async fn lookup(
+        &self,
+        _name: &LowerName,
+        _rtype: RecordType,
+        _request_info: Option<&RequestInfo<'_>>,
+        _lookup_options: LookupOptions,
+    ) -> LookupControlFlow<AuthLookup> {
+        LookupControlFlow::Skip
+    }
+    async fn nsec_records(&self, _name: &LowerName, _lookup_options: LookupOptions) -> LookupControlFlow<AuthLookup> {
+        LookupControlFlow::Skip
+    }
+    async fn nsec3_records(&self, _info: Nsec3QueryInfo<'_>, _lookup_options: LookupOptions) -> LookupControlFlow<AuthLookup> {
+        LookupControlFlow::Skip
+    }
+    async fn zone_transfer(
+        &self,
+        _request: &hickory_server::server::Request,
+        _lookup_options: LookupOptions,
+        _now: u64,
+    ) -> Option<(
+        Result<hickory_server::zone_handler::ZoneTransfer, hickory_server::zone_handler::LookupError>,
+        Option<hickory_proto::rr::TSigResponseContext>,
+    )> {
+        None
+    }
+    fn nx_proof_kind(&self) -> Option<&NxProofKind> {
+        None
+    }
+    fn metrics_label(&self) -> &'static str {
+        "skip-all"
+    }
+}
+
+fn build_zone(origin: &str, owners: &[Name]) -> InMemoryZoneHandler<TokioRuntimeProvider> {
+    let o = Name::from_str(origin).unwrap();
+    let mut zone = InMemoryZoneHandler::<TokioRuntimeProvider>::empty(o.clone(), ZoneType::Primary, AxfrPolicy::Deny, None);
+    let ns = Name::from_str("ns.o.").unwrap();
+    zone.upsert_mut(
+        Record::from_rdata(o.clone(), 300, RData::SOA(SOA::new(ns.clone(), Name::from_str("h.o.").unwrap(), 1, 1, 1, 1, 300))),
+        1,
+    );
+    zone.upsert_mut(Record::from_rdata(o.clone(), 300, RData::NS(NS(ns))), 1);
+    for owner in owners {
+        if o.zone_of(owner) {
+            zone.upsert_mut(
+                Record::from_rdata(owner.clone(), 300, RData::TXT(TXT::new(vec![format!("zone={origin}")]))),
+                1,
+            );
+        }
+    }
+    zone
+}
+
+struct World {
+    qn: Vec<QName>,
+    owners: Vec<Name>,
+}
+
+impl World {
+    fn new() -> World {
+        let qn = qnames();
+        let mut owners: Vec<Name> = MARKER_OWNERS.iter().map(|s| Name::from_str(s).unwrap()).collect();
+        owners.push(hname(&long_name(255, &name_wire("a.z."), b'l')));
+        owners.push(hname(&long_name(255, &name_wire("o."), b'l')));
+        World { qn, owners }
+    }
+}
+
+struct Srv {
+    server: Server<Catalog>,
+    cfg: fd::Config,
+    src: SocketAddr,
+    probe_base: Vec<Vec<u8>>,
+}
+
+fn labels_of(s: &str) -> fd::Labels {
+    s.split('.').filter(|l| !l.is_empty()).map(|l| l.as_bytes().to_vec()).collect()
+}
+
+fn build_srv(world: &World, shape: usize, acl: usize) -> Srv {
+    let sh = &SHAPES[shape];
+    let ac = &ACLS[acl];
+    let mut catalog = Catalog::new();
+    for (i, z) in sh.zones.iter().enumerate() {
+        let zone = build_zone(z, &world.owners);
+        let lname = LowerName::new(&Name::from_str(z).unwrap());
+        let mut chain: Vec<Arc<dyn ZoneHandler>> = vec![];
+        if sh.chained && i == 0 {
+            chain.push(Arc::new(SkipAll { origin: lname.clone() }));
+        }
+        chain.push(Arc::new(zone));
+        catalog.upsert(lname, chain);
+    }
+    let server = Server::with_access(
+        catalog,
+        ac.deny.iter().map(|s| s.parse::<ipnet::IpNet>().unwrap()),
+        ac.allow.iter().map(|s| s.parse::<ipnet::IpNet>().unwrap()),
+    );
+    let cfg = fd::Config {
+        zones: sh.zones.iter().map(|z| labels_of(z)).collect(),
+        deny: ac.deny.iter().map(|s| fd::Net::parse(s)).collect(),
+        allow: ac.allow.iter().map(|s| fd::Net::parse(s)).collect(),
+    };
+    Srv { server, cfg, src: ac.src.parse().unwrap(), probe_base: vec![] }
+}
+
+struct Worker<'w> {
+    world: &'w World,
+    rt: tokio::runtime::Runtime,
+    servers: Vec<Option<Srv>>,
+    probe: Vec<u8>,
+}
+
+impl<'w> Worker<'w> {
+    fn new(world: &'w World) -> Worker<'w> {
+        Worker {
+            world,
+            rt: vsim::rt(),
+            servers: (0..SHAPES.len() * ACLS.len()).map(|_| None).collect(),
+            // the fixed probe: x.a.z. TXT IN, id 0x7777, RD
+            probe: build_request(0x7777, 0x0100, &name_wire("x.a.z."), 16, 1, 0),
+        }
+    }
+}
+
+fn exec(rt: &tokio::runtime::Runtime, srv: &Srv, bytes: &[u8], proto: Protocol) -> Result<Vec<Vec<u8>>, vcore::PanicInfo> {
+    let src = srv.src;
+    catch(|| {
+        rt.block_on(async {
+            let (handle, mut rx) = BufDnsStreamHandle::new(src);
+            srv.server.verif_handle_raw_request(SerialMessage::new(bytes.to_vec(), src), proto, handle).await;
+            let mut out = vec![];
+            // the sender half was moved into the call and is dropped by now
+            while let Some(m) = rx.next().await {
+                out.push(m.into_parts().0);
+            }
+            out
+        })
+    })
+}
+
+// ------------------------------------------------------------------------------------------
+// the oracle
+
+struct Finding {
+    key: String,
+    what: String,
+}
+
+fn fnd(key: impl Into<String>, what: impl Into<String>) -> Option<Finding> {
+    Some(Finding { key: key.into(), what: what.into() })
+}
+
+fn conds(e: &fd::Expect) -> String {
+    let mut v: Vec<&str> = e.gates.clone();
+    for t in &e.tolerated {
+        v.push(t);
+    }
+    if v.is_empty() {
+        "none".into()
+    } else {
+        v.join("+")
+    }
+}
+
+fn rcode_class(c: u16) -> &'static str {
+    match c {
+        0 => "answered:NOERROR",
+        1 => "answered:FORMERR",
+        2 => "answered:SERVFAIL",
+        3 => "answered:NXDOMAIN",
+        4 => "answered:NOTIMP",
+        5 => "answered:REFUSED",
+        9 => "answered:NOTAUTH",
+        16 => "answered:BADVERS",
+        _ => "answered:other-rcode",
+    }
+}
+
+struct RespView {
+    qd: u16,
+    question: Result<fd::Question, &'static str>,
+    records: Vec<vref::wire::RawRecord>, // answer + authority (+ additional) as far as walkable
+    n_ans_auth: usize,
+    walk_complete: bool,
+    rcode: u16,
+    tc: bool,
+}
+
+fn view_response(r: &[u8]) -> RespView {
+    let flags = u16::from_be_bytes([r[2], r[3]]);
+    let qd = u16::from_be_bytes([r[4], r[5]]);
+    let an = u16::from_be_bytes([r[6], r[7]]) as usize;
+    let ns = u16::from_be_bytes([r[8], r[9]]) as usize;
+    let ar = u16::from_be_bytes([r[10], r[11]]) as usize;
+    let mut question = Err("no-question");
+    let mut p = 12usize;
+    let mut ok = true;
+    for i in 0..qd {
+        let q = match fd::read_name(r, p) {
+            Ok(n) => {
+                if n.next + 4 <= r.len() {
+                    Ok(fd::Question {
+                        name: n.labels,
+                        qtype: u16::from_be_bytes([r[n.next], r[n.next + 1]]),
+                        qclass: u16::from_be_bytes([r[n.next + 2], r[n.next + 3]]),
+                        has_pointer: n.has_pointer,
+                        end: n.next + 4,
+                    })
+                } else {
+                    Err("question-truncated")
+                }
+            }
+            Err(why) => Err(why),
+        };
+        match q {
+            Ok(q) => {
+                p = q.end;
+                if i == 0 {
+                    question = Ok(q);
+                }
+            }
+            Err(why) => {
+                if i == 0 {
+                    question = Err(why);
+                }
+                ok = false;
+                break;
+            }
+        }
+    }
+    let mut records = vec![];
+    let mut n_ans_auth = 0;
+    let mut ext = 0u16;
+    if ok {
+        for i in 0..an + ns + ar {
+            match vref::wire::read_record(r, p) {
+                Ok(rec) => {
+                    p = rec.end;
+                    if i < an + ns {
+                        n_ans_auth += 1;
+                    } else if rec.rtype == 41 {
+                        ext = (rec.ttl >> 24) as u16;
+                    }
+                    records.push(rec);
+                }
+                Err(_) => {
+                    ok = false;
+                    break;
+                }
+            }
+        }
+    }
+    RespView {
+        qd,
+        question,
+        records,
+        n_ans_auth,
+        walk_complete: ok && p == r.len(),
+        rcode: (ext << 4) | (flags & 0xf),
+        tc: flags & 0x0200 != 0,
+    }
+}
+
+/// Zones identified by the data in the answer and authority sections: the TXT marker text, the
+/// owner of an SOA, the owner of an NS set (NS exists only at the apexes in these zones).
+fn zone_ids(r: &[u8], v: &RespView, cfg: &fd::Config) -> Vec<Option<usize>> {
+    let mut ids: Vec<Option<usize>> = vec![];
+    for rec in &v.records[..v.n_ans_auth] {
+        let id = match rec.rtype {
+            16 => {
+                let rd = &r[rec.rdata_start..rec.rdata_end];
+                if rd.len() > 6 && &rd[1..6] == b"zone=" {
+                    let txt = String::from_utf8_lossy(&rd[6..1 + rd[0] as usize]).to_string();
+                    let l = labels_of(&txt);
+                    Some(cfg.zones.iter().position(|z| *z == l))
+                } else {
+                    None
+                }
+            }
+            6 | 2 => {
+                let l = fd::lower(&rec.name);
+                Some(cfg.zones.iter().position(|z| *z == l))
+            }
+            _ => None,
+        };
+        if let Some(id) = id {
+            if !ids.contains(&id) {
+                ids.push(id);
+            }
+        }
+    }
+    ids
+}
+
+/// Judge one request/response-list pair. Returns the first violated clause.
+fn judge(cfg: &fd::Config, src: SocketAddr, req: &[u8], out: &[Vec<u8>], l: &mut Local) -> Option<Finding> {
+    let e = fd::expect(cfg, src.ip(), req);
+    if !e.respond {
+        if out.is_empty() {
+            l.outcome(if e.why_silent == "is-a-response" { "silent:is-a-response" } else { "silent:shorter-than-header" });
+            return None;
+        }
+        return fnd(format!("count:reply-to:{}", e.why_silent), format!("{} message(s) sent in reply to a message that {}", out.len(), e.why_silent));
+    }
+    if out.is_empty() {
+        return fnd(format!("count:no-response:{}", conds(&e)), "a request (>= 12 bytes, QR=0) got no response at all");
+    }
+    if out.len() > 1 {
+        return fnd(format!("count:multiple:{}", conds(&e)), format!("{} responses to one request", out.len()));
+    }
+    let r = &out[0];
+    if r.len() < 12 {
+        return fnd("response:shorter-than-header", format!("{} byte response", r.len()));
+    }
+    let rid = u16::from_be_bytes([r[0], r[1]]);
+    if rid != e.id {
+        return fnd("id:mismatch", format!("request id {:#06x}, response id {:#06x}", e.id, rid));
+    }
+    if r[2] & 0x80 == 0 {
+        return fnd("qr:not-set", "response has QR=0");
+    }
+    let mut v = view_response(r);
+    let judge_question = e.query_or_update && e.question.is_some();
+    if v.qd > 0 && v.question.is_err() {
+        // the records behind an undecodable question cannot be located, so the extended rcode in
+        // the OPT is out of reach: only the header nibble is known
+        let low = v.rcode & 0xf;
+        if judge_question && low != fd::FORMERR && low != fd::NOTIMP {
+            let q = e.question.as_ref().unwrap();
+            return fnd(
+                if q.has_pointer { "question-echo:pointer-into-header" } else { "question-echo:undecodable" },
+                format!(
+                    "request question {} type {} class {}; the response's question section is undecodable ({}), header rcode nibble {}",
+                    vref::wire::name_to_string(&q.name),
+                    q.qtype,
+                    q.qclass,
+                    v.question.as_ref().err().unwrap(),
+                    low
+                ),
+            );
+        }
+        l.outcome("obs:undecodable-question-in-unjudged-response");
+        v.rcode = low;
+    }
+    l.outcome(rcode_class(v.rcode));
+    if !e.rcodes.contains(v.rcode) {
+        return fnd(
+            format!("rcode:got={}:want={}:{}", fd::rcode_name(v.rcode), e.rcodes.describe(), conds(&e)),
+            format!(
+                "rcode {} but the statement admits only {} (conditions: {}; parse: {:?} {})",
+                fd::rcode_name(v.rcode),
+                e.rcodes.describe(),
+                conds(&e),
+                e.parse,
+                e.parse_reason
+            ),
+        );
+    }
+    // observations where the statement is silent
+    if e.rcodes.any {
+        match e.opcode {
+            0 => l.outcome("obs:query-unjudged-rcode"),
+            5 => l.outcome(&format!("obs:update-rcode:{}", fd::rcode_name(v.rcode))),
+            _ => {}
+        }
+    }
+    if e.opcode != 0 && e.opcode != 5 && v.qd == 0 {
+        l.outcome("obs:unsupported-opcode-response-without-question");
+    }
+    let hick = Message::from_vec(r);
+    if hick.is_err() {
+        l.outcome("obs:hickory-cannot-decode-response");
+    }
+
+    // question echo: queries and updates that were not turned away with FORMERR / NOTIMP
+    if e.query_or_update && v.rcode != fd::FORMERR && v.rcode != fd::NOTIMP {
+        if let Some(q) = &e.question {
+            let same = match &v.question {
+                Ok(rq) => v.qd == 1 && rq.name == q.name && rq.qtype == q.qtype && rq.qclass == q.qclass,
+                Err(_) => false,
+            };
+            if !same {
+                let got = match &v.question {
+                    Ok(rq) => format!("{} type {} class {}", vref::wire::name_to_string(&rq.name), rq.qtype, rq.qclass),
+                    Err(why) => format!("undecodable ({why})"),
+                };
+                let what = format!(
+                    "request question {} type {} class {}; response (rcode {}) question: {}",
+                    vref::wire::name_to_string(&q.name),
+                    q.qtype,
+                    q.qclass,
+                    fd::rcode_name(v.rcode),
+                    got
+                );
+                let key = if q.has_pointer {
+                    "question-echo:pointer-into-header"
+                } else if v.qd == 0 {
+                    "question-echo:missing"
+                } else {
+                    "question-echo:differs"
+                };
+                return fnd(key, what);
+            }
+            l.outcome("checked:question-echo");
+            // second opinion: hickory's own decoder on the same bytes
+            if let Ok(m) = &hick {
+                let agrees = m.queries.len() == 1 && {
+                    let hq = &m.queries[0];
+                    let labels: Vec<Vec<u8>> = hq.name.iter().map(|x| x.to_vec()).collect();
+                    labels == q.name && u16::from(hq.query_type) == q.qtype && u16::from(hq.query_class) == q.qclass
+                };
+                if !agrees {
+                    return fnd(
+                        "question-echo:differs-by-hickory-decoder",
+                        "the reference walker reads the echoed question as equal, hickory's decoder does not",
+                    );
+                }
+            }
+        }
+    }
+
+    // right zone
+    if e.opcode == 0 && e.gates.is_empty() && (v.rcode == fd::NOERROR || v.rcode == fd::NXDOMAIN) {
+        if let (Some(_q), Some(want)) = (&e.question, e.zone) {
+            let ids = zone_ids(r, &v, cfg);
+            for id in &ids {
+                if *id != Some(want) {
+                    let rel = match id {
+                        None => "unconfigured-zone".to_string(),
+                        Some(g) => {
+                            let (gz, wz) = (&cfg.zones[*g], &cfg.zones[want]);
+                            if gz.len() < wz.len() && wz[wz.len() - gz.len()..] == gz[..] {
+                                "shorter-suffix".to_string()
+                            } else if gz.len() > wz.len() {
+                                "longer-name".to_string()
+                            } else {
+                                "unrelated-zone".to_string()
+                            }
+                        }
+                    };
+                    return fnd(
+                        format!("zone:answered-from-{rel}"),
+                        format!(
+                            "answer data identifies zone {:?}, the longest enclosing origin is {}",
+                            id.map(|g| vref::wire::name_to_string(&cfg.zones[g])),
+                            vref::wire::name_to_string(&cfg.zones[want])
+                        ),
+                    );
+                }
+            }
+            if ids.is_empty() {
+                if e.plain && !v.tc {
+                    return fnd(
+                        format!("zone:unidentified:{}", fd::rcode_name(v.rcode)),
+                        format!("plain query answered {} without any data identifying the zone (walk complete: {})", fd::rcode_name(v.rcode), v.walk_complete),
+                    );
+                }
+                l.outcome("obs:answer-without-zone-data");
+            } else {
+                l.outcome("checked:zone");
+            }
+        }
+    }
+    None
+}
+
+// ------------------------------------------------------------------------------------------
+// one case = hostile request + probe on the same server
+
+#[derive(Clone, Copy)]
+struct Place {
+    shape: usize,
+    acl: usize,
+    tcp: bool,
+}
+
+fn case_json(family: &str, pl: Place, req: &[u8], out: Option<&[Vec<u8>]>) -> Value {
+    json!({
+        "family": family,
+        "shape": pl.shape, "shape_what": SHAPES[pl.shape].what,
+        "acl": pl.acl, "acl_what": ACLS[pl.acl].what, "src": ACLS[pl.acl].src,
+        "proto": if pl.tcp { "tcp" } else { "udp" },
+        "request": hex::enc(req),
+        "responses": out.map(|o| o.iter().map(|r| hex::enc(r)).collect::<Vec<_>>()),
+    })
+}
+
+fn run_one(w: &mut Worker, family: &str, pl: Place, req: &[u8], l: &mut Local) {
+    let slot = pl.shape * ACLS.len() + pl.acl;
+    let proto = if pl.tcp { Protocol::Tcp } else { Protocol::Udp };
+    if w.servers[slot].is_none() {
+        let mut srv = build_srv(w.world, pl.shape, pl.acl);
+        // baseline probe, judged by the same oracle
+        match exec(&w.rt, &srv, &w.probe, Protocol::Udp) {
+            Ok(out) => {
+                if let Some(f) = judge(&srv.cfg, srv.src, &w.probe, &out, l) {
+                    l.violation(&format!("probe-baseline:{}", f.key), &f.what, || case_json("probe", pl, &w.probe, Some(&out)));
+                }
+                srv.probe_base = out;
+            }
+            Err(p) => l.violation(&format!("panic:{}", vcore::short_loc(&p.loc)), &p.msg, || case_json("probe", pl, &w.probe, None)),
+        }
+        w.servers[slot] = Some(srv);
+    }
+    l.eval();
+    let mut rebuild = false;
+    {
+        let srv = w.servers[slot].as_ref().unwrap();
+        if req.len() >= 12 && req[2] & 0x80 == 0 {
+            l.nontrivial(fnv64(req) ^ ((slot as u64 * 2 + pl.tcp as u64 + 1).wrapping_mul(0x9e3779b97f4a7c15)));
+        }
+        match exec(&w.rt, srv, req, proto) {
+            Ok(out) => {
+                if let Some(f) = judge(&srv.cfg, srv.src, req, &out, l) {
+                    l.violation(&f.key, &f.what, || case_json(family, pl, req, Some(&out)));
+                }
+            }
+            Err(p) => {
+                rebuild = true;
+                l.violation(&format!("panic:{}", vcore::short_loc(&p.loc)), &format!("handler panicked: {}", p.msg), || {
+                    case_json(family, pl, req, None)
+                });
+            }
+        }
+        // "keeps serving": the fixed probe on the same server object must be answered as before
+        match exec(&w.rt, srv, &w.probe, Protocol::Udp) {
+            Ok(out) => {
+                if out != srv.probe_base {
+                    rebuild = true;
+                    l.violation(
+                        "probe:answer-changed-after-request",
+                        &format!("probe answered differently after the request ({} response(s))", out.len()),
+                        || {
+                            let mut j = case_json(family, pl, req, None);
+                            j["probe_responses"] = json!(out.iter().map(|r| hex::enc(r)).collect::<Vec<_>>());
+                            j
+                        },
+                    );
+                } else {
+                    l.outcome("checked:probe");
+                }
+            }
+            Err(p) => {
+                rebuild = true;
+                l.violation(&format!("probe:panic:{}", vcore::short_loc(&p.loc)), &p.msg, || case_json(family, pl, req, None));
+            }
+        }
+    }
+    if rebuild {
+        w.servers[slot] = None;
+    }
+}
+
+// ------------------------------------------------------------------------------------------
+// families
+
+const S: [u8; 14] = [0x00, 0x01, 0x02, 0x03, 0x04, 0x0c, 0x3f, 0x40, 0x7f, 0x80, 0xbf, 0xc0, 0xc1, 0xff];
+
+const FLAG_BITS: [u16; 8] = [0, 0x0400, 0x0200, 0x0100, 0x0080, 0x0040, 0x0020, 0x0010];
+
+/// Section-count variants of the header product: (counts, body) from the question bytes `q` and
+/// the EDNS variant `e`.
+const N_COUNT_VARIANTS: u64 = 16;
+fn count_variant(i: u64, id: u16, flags: u16, q: &[u8], e: &Extra) -> Vec<u8> {
+    let a_rr = rr(&[0xc0, 0x0c], 1, 1, 1, &[192, 0, 2, 9]);
+    let ns_rr = rr(&[0xc0, 0x0c], 2, 1, 1, &[2, b'n', b's', 0xc0, 0x0c]);
+    let txt_rr = rr(&[0xc0, 0x0c], 16, 1, 1, &[3, b'a', b'b', b'c']);
+    let cat = |c: [u16; 4], parts: &[&[u8]]| {
+        let mut v = hdr(id, flags, c);
+        for p in parts {
+            v.extend_from_slice(p);
+        }
+        v
+    };
+    let en = e.ar_n;
+    match i {
+        0 => cat([1, 0, 0, en], &[q, &e.ar]),
+        1 => cat([1, 1, 0, en], &[q, &a_rr, &e.ar]),
+        2 => cat([1, 0, 1, en], &[q, &ns_rr, &e.ar]),
+        3 => cat([1, 0, 0, 1 + en], &[q, &txt_rr, &e.ar]),
+        4 => cat([0, 0, 0, en], &[q, &e.ar]),
+        5 => cat([2, 0, 0, en], &[q, &e.ar]),
+        6 => cat([2, 0, 0, en], &[q, q, &e.ar]),
+        7 => cat([65535, 0, 0, en], &[q, &e.ar]),
+        8 => cat([1, 1, 0, en], &[q, &e.ar]),
+        9 => cat([1, 65535, 0, 0], &[q, &e.ar]),
+        10 => cat([1, 0, 65535, 0], &[q, &e.ar]),
+        11 => cat([1, 0, 0, 65535], &[q, &e.ar]),
+        12 => cat([1, 0, 0, en], &[q, &e.ar, &a_rr]),
+        13 => cat([0, 0, 0, 0], &[]),
+        14 => cat([1, 0, 0, 0], &[]),
+        15 => cat([1, 0, 0, en], &[&q[..q.len() - 1], &e.ar]),
+        _ => unreachable!(),
+    }
+}
+
+/// Representative requests whose complete prefix / single-byte-substitution neighbourhoods are
+/// enumerated.
+fn seeds(world: &World) -> Vec<(&'static str, Vec<u8>)> {
+    let n = |s: &str| name_wire(s);
+    let qn = |what: &str| world.qn.iter().find(|q| q.what == what).unwrap().wire.clone();
+    let mut v: Vec<(&'static str, Vec<u8>)> = vec![];
+    let e0 = Extra::default();
+    v.push(("TXT x.a.z.", build_request(0x0102, 0x0100, &n("x.a.z."), 16, 1, 0)));
+    v.push(("A a.a.z.", build_request(0x0102, 0x0000, &n("a.a.z."), 1, 1, 0)));
+    v.push(("SOA z.", build_request(0xffff, 0x0100, &n("z."), 6, 1, 0)));
+    v.push(("NS a.z.", build_request(0x0001, 0x0100, &n("a.z."), 2, 1, 0)));
+    v.push(("TXT o. (outside)", build_request(0x0102, 0x0100, &n("o."), 16, 1, 0)));
+    v.push(("TXT . (root)", build_request(0x0102, 0x0100, &n("."), 16, 1, 0)));
+    v.push(("TXT X.a.Z. mixed case", build_request(0x0102, 0x0100, &n("X.a.Z."), 16, 1, 0)));
+    v.push(("TXT x.b.z. edns v0", build_request(0x0102, 0x0100, &n("x.b.z."), 16, 1, 1)));
+    v.push(("TXT x.a.z. edns v1", build_request(0x0102, 0x0100, &n("x.a.z."), 16, 1, 2)));
+    v.push(("TXT x.a.z. edns v0 DO", build_request(0x0102, 0x0120, &n("x.a.z."), 16, 1, 7)));
+    v.push(("TXT x.a.z. edns option", build_request(0x0102, 0x0100, &n("x.a.z."), 16, 1, 8)));
+    v.push(("TXT x.a.z. edns nsid", build_request(0x0102, 0x0100, &n("x.a.z."), 16, 1, 9)));
+    v.push(("TXT x.a.z. two OPTs", build_request(0x0102, 0x0100, &n("x.a.z."), 16, 1, 11)));
+    v.push(("TXT x.a.z. OPT in answer", build_request(0x0102, 0x0100, &n("x.a.z."), 16, 1, 12)));
+    v.push(("AXFR z.", build_request(0x0102, 0x0000, &n("z."), 252, 1, 0)));
+    v.push(("ANY a.z.", build_request(0x0102, 0x0100, &n("a.z."), 255, 1, 0)));
+    v.push(("TXT x.a.z. class CH", build_request(0x0102, 0x0100, &n("x.a.z."), 16, 3, 0)));
+    v.push(("type 65535 class ANY", build_request(0x0102, 0x0100, &n("x.z."), 65535, 255, 0)));
+    v.push(("STATUS", build_request(0x0102, 0x1000, &n("z."), 1, 1, 0)));
+    v.push(("opcode 9", build_request(0x0102, 0x4800, &n("z."), 1, 1, 1)));
+    v.push(("IQUERY", build_request(0x0102, 0x0800, &n("z."), 1, 1, 0)));
+    // NOTIFY with the SOA in the answer section
+    {
+        let q = question(&n("a.z."), 6, 1);
+        let mut soa = n("ns.o.");
+        soa.extend(n("h.o."));
+        soa.extend([0, 0, 0, 2, 0, 0, 0, 1, 0, 0, 0, 1, 0, 0, 0, 1, 0, 0, 1, 44]);
+        let mut m = hdr(0x0102, 0x2400, [1, 1, 0, 0]);
+        m.extend(&q);
+        m.extend(rr(&[0xc0, 0x0c], 6, 1, 300, &soa));
+        v.push(("NOTIFY a.z. with SOA", m));
+    }
+    // UPDATE z.: add an A, delete an RRset (class ANY, empty RDATA), prerequisite name-in-use
+    {
+        let mut m = hdr(0x0102, 0x2800, [1, 1, 2, 0]);
+        m.extend(question(&n("z."), 6, 1));
+        m.extend(rr(&n("x.z."), 255, 255, 0, &[]));
+        m.extend(rr(&n("n.z."), 1, 1, 60, &[192, 0, 2, 7]));
+        m.extend(rr(&n("x.z."), 16, 255, 0, &[]));
+        v.push(("UPDATE z.", m));
+    }
+    v.push(("UPDATE zone type A", build_request(0x0102, 0x2800, &n("z."), 1, 1, 0)));
+    v.push(("UPDATE o. (no zone) edns v0", build_request(0x0102, 0x2800, &n("o."), 6, 1, 1)));
+    v.push(("query + A answer", count_variant(1, 0x0102, 0x0100, &question(&n("x.a.z."), 16, 1), &e0)));
+    v.push(("query + NS authority (compressed)", count_variant(2, 0x0102, 0x0100, &question(&n("x.a.z."), 16, 1), &e0)));
+    v.push(("query + TXT additional + OPT", count_variant(3, 0x0102, 0x0100, &question(&n("x.a.z."), 16, 1), &edns_variant(1))));
+    v.push(("qname pointer c002", build_request(0x1234, 0x0100, &qn("pointer c002 (into the flags)"), 1, 1, 0)));
+    v.push(("qname pointer c004", build_request(0x1234, 0x0100, &qn("pointer c004 (into QDCOUNT)"), 16, 1, 0)));
+    v.push(("qname z + pointer", build_request(0x1234, 0x0100, &qn("z + pointer c004"), 16, 1, 1)));
+    v.push(("qname 255 octets", build_request(0x0102, 0x0100, &qn("255 octets under a.z."), 16, 1, 0)));
+    v.push(("qname 255 octets edns", build_request(0x0102, 0x0100, &qn("255 octets under o."), 16, 1, 1)));
+    v.push(("QDCOUNT 0", count_variant(13, 0x0102, 0x0100, &[], &e0)));
+    v.push(("two questions", count_variant(6, 0x0102, 0x0100, &question(&n("x.a.z."), 16, 1), &e0)));
+    v.push(("response with answer", count_variant(1, 0x0102, 0x8180, &question(&n("x.a.z."), 16, 1), &e0)));
+    v.push(("all flag bits", build_request(0x0102, 0x07f0, &n("x.a.z."), 16, 1, 0)));
+    v.push(("request rcode 15", build_request(0x0102, 0x010f, &n("a.z."), 16, 1, 0)));
+    v.push(("trailing record", count_variant(12, 0x0102, 0x0100, &question(&n("x.a.z."), 16, 1), &e0)));
+    // TSIG-bearing query (C13 judges the TSIG semantics; here: one response, id, question)
+    {
+        let mut rd = n("hmac-sha256.");
+        rd.extend([0, 0, 0x65, 0x53, 0xf1, 0x00, 1, 44]); // time, fudge
+        rd.extend([0, 4, 1, 2, 3, 4]); // mac
+        rd.extend([0x01, 0x02, 0, 0, 0, 0]); // original id, error, other len
+        let mut m = hdr(0x0102, 0x0100, [1, 0, 0, 1]);
+        m.extend(question(&n("x.a.z."), 16, 1));
+        m.extend(rr(&n("key."), 250, 255, 0, &rd));
+        v.push(("TSIG-signed query (unknown key)", m));
+    }
+    v
+}
+
+fn place_list(shapes: &[usize], acls: &[usize], protos: &[bool]) -> Vec<Place> {
+    let mut v = vec![];
+    for &shape in shapes {
+        for &acl in acls {
+            for &tcp in protos {
+                v.push(Place { shape, acl, tcp });
+            }
+        }
+    }
+    v
+}
+
+fn rotate(i: u64, n: u64, seed: u64) -> u64 {
+    if n == 0 {
+        return 0;
+    }
+    (i + seed.wrapping_mul(0x9e3779b97f4a7c15) % n) % n
+}
+
+fn main() {
+    let ctx = Ctx::from_args("C11", "exploration");
+    let thorough = !ctx.quick();
+    let world = World::new();
+
+    if let Some((_key, case)) = ctx.replay_case() {
+        let mut w = Worker::new(&world);
+        let pl = Place {
+            shape: case["shape"].as_u64().unwrap() as usize,
+            acl: case["acl"].as_u64().unwrap() as usize,
+            tcp: case["proto"].as_str() == Some("tcp"),
+        };
+        let req = hex::dec(case["request"].as_str().unwrap()).expect("request hex");
+        ctx.with_local(|l| run_one(&mut w, "replay", pl, &req, l));
+        {
+            // show what the reference expects and what the server sent
+            let srv = build_srv(&world, pl.shape, pl.acl);
+            let e = fd::expect(&srv.cfg, srv.src.ip(), &req);
+            eprintln!(
+                "replay: respond={} {} id={:#06x} opcode={} parse={:?}({}) gates={:?} tolerated={:?} rcodes={} zone={:?} plain={}",
+                e.respond, e.why_silent, e.id, e.opcode, e.parse, e.parse_reason, e.gates, e.tolerated, e.rcodes.describe(),
+                e.zone.map(|z| SHAPES[pl.shape].zones[z]), e.plain
+            );
+            match exec(&w.rt, &srv, &req, if pl.tcp { Protocol::Tcp } else { Protocol::Udp }) {
+                Ok(out) => {
+                    for r in &out {
+                        eprintln!("replay: response {}", hex::enc(r));
+                        eprintln!("replay: hickory reads it as {:?}", Message::from_vec(r).map(|m| (m.metadata.response_code, m.queries.iter().map(|q| q.to_string()).collect::<Vec<_>>(), m.answers.len(), m.authorities.len(), m.additionals.len())).map_err(|e| e.to_string()));
+                    }
+                    if out.is_empty() {
+                        eprintln!("replay: no response");
+                    }
+                }
+                Err(p) => eprintln!("replay: panic {} at {}", p.msg, p.loc),
+            }
+        }
+        ctx.finish(false);
+    }
+
+    ctx.set_rule(
+        "E-ENUM, every element executed on the real Server front door + Catalog + InMemoryZoneHandler and followed by a fixed \
+         probe query on the same server object. Families: (F1) catalog shapes x access lists x UDP/TCP x query names x qtype x \
+         EDNS x EVERY opcode 0..15; (F2) shapes x access classes x UDP/TCP x names x qtypes x qclasses x 16 EDNS variants x \
+         opcodes; (F3) header product id x QR x opcode x single flag bit x request rcode nibble x 16 section-count variants \
+         (consistent/inconsistent with the body) x names x EDNS; (F4) EVERY prefix and EVERY single-byte substitution \
+         (structural alphabet S = {00,01,02,03,04,0c,3f,40,7f,80,bf,c0,c1,ff}; thorough: all 256 values) of representative \
+         requests; (F5) ALL strings over S up to a length bound as whole messages (sub-header); (F6) ALL strings over S up to a \
+         length bound as the body behind fixed headers. Oracle: reference front door written from the statement (count in \
+         {0,1}; 0 iff len<12 or QR=1; id; QR; decoded question equality for queries/updates not answered FORMERR/NOTIMP; SET of \
+         admissible rcodes where several conditions hold; longest-suffix zone identified by TXT marker / SOA / NS owner; no \
+         panic; probe answered byte-identically afterwards). Non-trivial = distinct (configuration, request) with >= 12 bytes \
+         and QR=0.",
+    );
+    ctx.assume("vref::wire record walker and the c11 reference name reader (RFC 1035 4.1.4) decode the responses");
+    ctx.assume("InMemoryZoneHandler lookup of an existing TXT/SOA/NS owner is correct (C10's business); C11 only identifies WHICH zone answered");
+    ctx.assume("requests whose parse status depends on the reading of the RFC (trailing bytes, unvalidated RDATA, pointer in the question, QDCOUNT != 1, TSIG present) may get FORMERR or the normal answer");
+
+    let nq = world.qn.len() as u64;
+    let nshape = SHAPES.len() as u64;
+    let nacl = ACLS.len() as u64;
+    let seed = ctx.seed;
+
+    // ---- F1: dispatch product, every opcode ------------------------------------------------
+    {
+        let qtypes: [u16; 3] = [16, 1, 6];
+        let edns: [usize; 4] = [0, 1, 2, 3];
+        let od = Odometer::new(&[16, 4, 3, nq, 2, nacl, nshape]);
+        let n = od.space();
+        ctx.set("F1_dispatch_cases", json!(n));
+        ctx.par_run_init(
+            n,
+            512,
+            |_| Worker::new(&world),
+            |i, l, w| {
+                let d = od.get(rotate(i, n, seed));
+                let pl = Place { shape: d[6] as usize, acl: d[5] as usize, tcp: d[4] == 1 };
+                let flags = ((d[0] as u16) << 11) | 0x0100;
+                let req = build_request(0x0102, flags, &w.world.qn[d[3] as usize].wire, qtypes[d[2] as usize], 1, edns[d[1] as usize]);
+                run_one(w, "F1", pl, &req, l);
+                if i % 100_003 == 0 {
+                    l.sample(case_json("F1", pl, &req, None));
+                }
+            },
+        );
+    }
+
+    // ---- F2: class / type / EDNS product ---------------------------------------------------
+    {
+        let qtypes: [u16; 9] = [1, 16, 6, 2, 252, 255, 41, 65535, 0];
+        let qclasses: [u16; 4] = [1, 3, 255, 0];
+        let opcodes: [u16; 4] = [0, 2, 5, 9];
+        let acls: [usize; 3] = [0, 1, 4];
+        let od = Odometer::new(&[4, EDNS_NAMES.len() as u64, 4, 9, nq, 2, 3, nshape]);
+        let n = od.space();
+        ctx.set("F2_type_class_edns_cases", json!(n));
+        ctx.par_run_init(
+            n,
+            512,
+            |_| Worker::new(&world),
+            |i, l, w| {
+                let d = od.get(rotate(i, n, seed));
+                let pl = Place { shape: d[7] as usize, acl: acls[d[6] as usize], tcp: d[5] == 1 };
+                let flags = opcodes[d[0] as usize] << 11;
+                let req = build_request(
+                    0xffff,
+                    flags,
+                    &w.world.qn[d[4] as usize].wire,
+                    qtypes[d[3] as usize],
+                    qclasses[d[2] as usize],
+                    d[1] as usize,
+                );
+                run_one(w, "F2", pl, &req, l);
+                if i % 100_003 == 0 {
+                    l.sample(case_json("F2", pl, &req, None));
+                }
+            },
+        );
+    }
+
+    // ---- F3: header product ----------------------------------------------------------------
+    {
+        let ids: [u16; 3] = [0, 1, 0xffff];
+        let places = place_list(&[1, 5], &[0, 1], &[false]);
+        let names: Vec<usize> = ["a.z.", "x.o.", "pointer c002 (into the flags)", "z + pointer c004"]
+            .iter()
+            .map(|w| world.qn.iter().position(|q| q.what == *w).unwrap())
+            .collect();
+        let edns: [usize; 3] = [0, 1, 2];
+        let od = Odometer::new(&[3, 2, 16, 8, 2, N_COUNT_VARIANTS, names.len() as u64, 3, places.len() as u64]);
+        let n = od.space();
+        ctx.set("F3_header_product_cases", json!(n));
+        ctx.par_run_init(
+            n,
+            512,
+            |_| Worker::new(&world),
+            |i, l, w| {
+                let d = od.get(rotate(i, n, seed));
+                let pl = places[d[8] as usize];
+                let flags = ((d[1] as u16) << 15) | ((d[2] as u16) << 11) | FLAG_BITS[d[3] as usize] | if d[4] == 1 { 0xf } else { 0 };
+                let q = question(&w.world.qn[names[d[6] as usize]].wire, 16, 1);
+                let req = count_variant(d[5], ids[d[0] as usize], flags, &q, &edns_variant(edns[d[7] as usize]));
+                run_one(w, "F3", pl, &req, l);
+                if i % 100_003 == 0 {
+                    l.sample(case_json("F3", pl, &req, None));
+                }
+            },
+        );
+    }
+
+    // ---- F4: prefixes and single-byte substitutions of representative requests -------------
+    {
+        let seeds = seeds(&world);
+        let places = place_list(&[2, 5], &[0, 1], &[false, true]);
+        let values: Vec<u8> = if thorough { (0..=255u8).collect() } else { S.to_vec() };
+        // flat list of (seed, kind): kind < len+1 => prefix of that length, else substitution
+        let mut items: Vec<(usize, usize)> = vec![];
+        for (si, (_, b)) in seeds.iter().enumerate() {
+            for k in 0..=b.len() {
+                items.push((si, k));
+            }
+            for off in 0..b.len() {
+                items.push((si, b.len() + 1 + off));
+            }
+        }
+        ctx.set("F4_seeds", json!(seeds.len()));
+        ctx.set("F4_seed_names", json!(seeds.iter().map(|s| s.0).collect::<Vec<_>>()));
+        let n = items.len() as u64;
+        let mut f4_cases = 0u64;
+        for (si, k) in &items {
+            f4_cases += if *k <= seeds[*si].1.len() { 1 } else { values.len() as u64 } * places.len() as u64;
+        }
+        ctx.set("F4_edit_cases", json!(f4_cases));
+        ctx.par_run_init(
+            n,
+            8,
+            |_| Worker::new(&world),
+            |i, l, w| {
+                let (si, k) = items[rotate(i, n, seed) as usize];
+                let base = &seeds[si].1;
+                for pl in &places {
+                    if k <= base.len() {
+                        run_one(w, "F4-prefix", *pl, &base[..k], l);
+                    } else {
+                        let off = k - base.len() - 1;
+                        let mut m = base.clone();
+                        for v in &values {
+                            m[off] = *v;
+                            run_one(w, "F4-substitution", *pl, &m, l);
+                        }
+                    }
+                }
+                if i % 997 == 0 {
+                    l.sample(json!({"family": "F4", "seed": seeds[si].0, "edit": if k <= base.len() { format!("prefix {k}") } else { format!("substitute offset {}", k - base.len() - 1) }}));
+                }
+            },
+        );
+    }
+
+    // ---- F5: all short strings over S as whole messages ------------------------------------
+    {
+        let maxlen: u32 = if thorough { 6 } else { 5 };
+        let pl = Place { shape: 1, acl: 0, tcp: false };
+        let mut total = 0u64;
+        for len in 0..=maxlen {
+            let n = vcore::enumerate::pow(14, len);
+            total += n;
+            ctx.par_run_init(
+                n,
+                4096,
+                |_| (Worker::new(&world), Vec::<u8>::new()),
+                |i, l, (w, buf)| {
+                    vcore::enumerate::string_at(&S, len as usize, i, buf);
+                    let b = buf.clone();
+                    run_one(w, "F5", pl, &b, l);
+                },
+            );
+        }
+        ctx.set("F5_short_string_cases", json!(total));
+        ctx.set("F5_max_len", json!(maxlen));
+    }
+
+    // ---- F6: all strings over S as the body behind fixed headers ---------------------------
+    {
+        let headers: Vec<(&str, Vec<u8>)> = vec![
+            ("QUERY QD=1", hdr(0x0101, 0x0000, [1, 0, 0, 0])),
+            ("QUERY RD QD=1 AR=1", hdr(0x0101, 0x0100, [1, 0, 0, 1])),
+            ("UPDATE ZO=1 UP=1", hdr(0x0101, 0x2800, [1, 0, 1, 0])),
+        ];
+        let maxlen: u32 = if thorough { 7 } else { 5 };
+        let pl = Place { shape: 5, acl: 0, tcp: false };
+        let mut total = 0u64;
+        for (hi, (_, h)) in headers.iter().enumerate() {
+            for len in 0..=maxlen {
+                if len == 7 && hi != 0 {
+                    continue; // length 7 only behind the plain query header
+                }
+                let n = vcore::enumerate::pow(14, len);
+                total += n;
+                ctx.par_run_init(
+                    n,
+                    4096,
+                    |_| (Worker::new(&world), Vec::<u8>::new()),
+                    |i, l, (w, buf)| {
+                        vcore::enumerate::string_at(&S, len as usize, i, buf);
+                        let mut m = h.clone();
+                        m.extend_from_slice(buf);
+                        run_one(w, "F6", pl, &m, l);
+                    },
+                );
+            }
+        }
+        ctx.set("F6_header_plus_body_cases", json!(total));
+        ctx.set("F6_max_body_len", json!(maxlen));
+        ctx.set("F6_headers", json!(headers.iter().map(|h| h.0).collect::<Vec<_>>()));
+    }
+
+    ctx.set("shapes", json!(SHAPES.iter().map(|s| s.what).collect::<Vec<_>>()));
+    ctx.set("access_lists", json!(ACLS.iter().map(|a| a.what).collect::<Vec<_>>()));
+    ctx.set("query_names", json!(world.qn.iter().map(|q| q.what).collect::<Vec<_>>()));
+    ctx.set("edns_variants", json!(EDNS_NAMES));
+
+    for class in [
+        "silent:is-a-response",
+        "silent:shorter-than-header",
+        "answered:NOERROR",
+        "answered:NXDOMAIN",
+        "answered:FORMERR",
+        "answered:NOTIMP",
+        "answered:REFUSED",
+        "answered:BADVERS",
+        "checked:question-echo",
+        "checked:zone",
+        "checked:probe",
+    ] {
+        if ctx.outcome_count(class) == 0 {
+            ctx.machinery_failure(&format!("vacuous run: outcome class {class} was never exercised"));
+        }
+    }
+    ctx.finish(true);
+}
